@@ -1,7 +1,27 @@
 (** C09 -- executor runs each statement in order, once, and resumes after any
-    failure. (First instalment; the history theorems are added in Exec/RunProofs.v.) *)
+    failure.
+
+    Model: M-EXEC ([execute], [exec_files]: Executor.Execute / exec with the three
+    write points and the deferred final write) under M-PEND + [execute_n]
+    (Executor.Pending / ExecuteN, revisions listed by version as the CLI's reader
+    does). Every [ExecContext] and [WriteRevision] call pops one boolean of an
+    arbitrary fault stream. The journal is the list of successful Exec events.
+
+    Setting of the history theorems (section [Hist]): one directory [all] whose
+    files are strictly sorted by version and contain no checkpoint file; every
+    run uses that directory, no baseline version, and is allowed to start
+    ([cfg_ok]: the database is clean or --allow-dirty); any execution order, any
+    count argument [n], any fault stream per run; the first run starts from the
+    empty revision table. [hash_eqb] decides equality of hashes; nothing is
+    assumed of the hash function [HS].
+
+    [plan all] = the statements of all files in version order, file order.
+    [expand p reps] = element i of p repeated 1 + reps[i] times in a row.
+    [wf es] = number of failed bookkeeping writes that directly follow a
+    successful statement in the events [es] of one run. *)
 From Coq Require Import List NArith Bool Arith.
-From Atlas Require Import Base.Bytes Exec.ExecModel.
+From Atlas Require Import Base.Bytes Base.Stutter Exec.ExecModel Exec.ExecProofs Exec.StepProofs
+  Exec.PendingModel Exec.PendingProofs Exec.RunModel Exec.TxModel Exec.TxProofs Exec.RunProofs.
 Import ListNotations.
 
 (** The first failing file ends the run: nothing of the later files is touched. *)
@@ -16,6 +36,205 @@ Proof.
 Qed.
 Print Assumptions C09_stop_at_first_failing_file.
 
+Section Hist.
+Variable hash : Type.
+Variable heq : hash -> hash -> bool.
+Variable HS : bytes -> hash.
+Hypothesis heq_spec : forall a b, heq a b = true <-> a = b.
+
+(** 2. Stop on fault, for one whole ExecuteN (any configuration, directory and
+    table): after the first failing call nothing is executed any more -- the
+    only event that may follow is the deferred bookkeeping write after a failed
+    statement. *)
+Theorem C09_stop_on_fault :
+  forall c n all (t : list (rev hash)) fs ro t' fs' es,
+  execute_n hash heq HS c n all t fs = (ro, t', fs', es) ->
+  forall es1 e es2, es = es1 ++ e :: es2 -> ev_ok e = false ->
+    after_fail e es2 /\ exec_events es2 = [].
+Proof. exact (execute_n_stops hash heq HS). Qed.
+
+Variable all : list file.
+Hypothesis all_sorted : sorted_files all.
+Hypothesis all_no_checkpoint : forall f, In f all -> f_ckpt f = false.
+
+(** 1. Never overclaims. Cut the events of any sequence of runs at any point
+    (inside a run, between two calls): the journal so far is the plan up to a
+    position [E] (with repeats), the revision table built from the successful
+    writes so far claims exactly the plan up to a position [P], and
+    [P <= E <= P + 1]; every stored revision belongs to a file of the directory,
+    claims at most its statement count and records the cumulative hashes of
+    exactly the claimed statements ([claim_ok]; none once complete). *)
+Theorem C09_never_overclaims :
+  forall rs : list run, Forall (run_ok all) rs ->
+  forall pre post, all_events hash (run_all hash heq HS rs []) = pre ++ post ->
+  exists P E reps,
+    P <= E /\ E <= P + 1 /\ E <= length (plan all) /\ length reps = E /\
+    journal pre = expand (firstn E (plan all)) reps /\
+    claimed_plan hash all (tbl_of_events hash pre []) = firstn P (plan all) /\
+    (forall r, In r (tbl_of_events hash pre []) ->
+       exists f, In f all /\ claim_ok hash HS f r (r_applied r) /\ r_total r = length (f_stmts f)).
+Proof. exact (never_overclaims_runs hash heq HS heq_spec all all_sorted all_no_checkpoint). Qed.
+
+(** 3. Resume. For ANY sequence of runs, each with its own fault stream and
+    count: the concatenated journal is the plan up to some position [E], in
+    order, nothing skipped, where statement i is executed 1 + reps[i] times in a
+    row and the total number of repeats is at most the number of failed
+    bookkeeping writes that directly followed a statement; the final table
+    claims the plan up to [P] with [P <= E <= P + 1]. *)
+Theorem C09_resume :
+  forall rs : list run, Forall (run_ok all) rs ->
+  let outs := run_all hash heq HS rs [] in
+  exists P E reps,
+    P <= E /\ E <= P + 1 /\ E <= length (plan all) /\ length reps = E /\
+    journal (all_events hash outs) = expand (firstn E (plan all)) reps /\
+    list_sum reps <= wf_all hash outs /\
+    claimed_plan hash all (final_tbl hash outs []) = firstn P (plan all).
+Proof. exact (resume_lemma hash heq HS heq_spec all all_sorted all_no_checkpoint). Qed.
+
+(** 3b/5. After any such history, one more run without faults and without a
+    count completes the migration: every planned statement is in the journal, in
+    order (repeats as above); every file's stored revision has
+    Applied = Total = its statement count; Pending answers "nothing to do". *)
+Theorem C09_complete_marks_done :
+  forall (rs : list run) (c : cfg), Forall (run_ok all) rs -> cfg_ok c ->
+  let outs := run_all hash heq HS (rs ++ [mkRun c 0 all []]) [] in
+  let T := final_tbl hash outs [] in
+  (exists reps, length reps = length (plan all) /\
+                journal (all_events hash outs) = expand (plan all) reps /\
+                list_sum reps <= wf_all hash outs) /\
+  (forall f, In f all -> exists r, tbl_get T (f_version f) = Some r /\
+                                   r_applied r = length (f_stmts f) /\ r_total r = length (f_stmts f)) /\
+  (forall c', cfg_ok c' -> pending c' all (read_revisions hash T) = (PNoPending, None)).
+Proof. exact (complete_lemma hash heq HS heq_spec all all_sorted all_no_checkpoint). Qed.
+
+(** 4. Exactly once. If no revision write fails in any run (only statements
+    fail, anywhere, any number of times), then after a final fault-free run the
+    journal IS the plan: every statement exactly once over all attempts, in
+    order. Without the final run the journal is a prefix of the plan. *)
+Theorem C09_exactly_once :
+  forall (rs : list run) (c : cfg), Forall (run_ok all) rs -> cfg_ok c ->
+  let outs := run_all hash heq HS (rs ++ [mkRun c 0 all []]) [] in
+  (forall out r, In out outs -> ~ In (EWrite r false) (snd out)) ->
+  journal (all_events hash outs) = plan all.
+Proof. exact (exactly_once_lemma hash heq HS heq_spec all all_sorted all_no_checkpoint). Qed.
+
+Theorem C09_exactly_once_prefix :
+  forall rs : list run, Forall (run_ok all) rs ->
+  let outs := run_all hash heq HS rs [] in
+  (forall out r, In out outs -> ~ In (EWrite r false) (snd out)) ->
+  exists E, E <= length (plan all) /\ journal (all_events hash outs) = firstn E (plan all).
+Proof. exact (once_prefix_lemma hash heq HS heq_spec all all_sorted all_no_checkpoint). Qed.
+
+End Hist.
+
+Print Assumptions C09_stop_on_fault.
+Print Assumptions C09_never_overclaims.
+Print Assumptions C09_resume.
+Print Assumptions C09_complete_marks_done.
+Print Assumptions C09_exactly_once.
+Print Assumptions C09_exactly_once_prefix.
+
+(** ** the precondition "the reader returns the last executed file last" is needed
+
+    With --exec-order non-linear an out-of-order file that failed midway is not
+    the greatest recorded version; Pending (M-PEND) only inspects the last
+    revision and answers "nothing to do": the resume clause is FALSE there.
+    History: apply [1;3]; add file 2 (three statements) and apply with
+    non-linear order, its second statement fails; apply again without faults.
+    (Known finding C11-nonlinear-partial-not-resumed, reproduced on the real
+    executor by the C11 check.) *)
+Definition nl_cfg : cfg := mkCfg NonLinear None true false.
+Definition nl_f1 : file := mkFile [49%N] [[65%N]] false.
+Definition nl_f2 : file := mkFile [50%N] [[65%N]; [66%N]; [67%N]] false.
+Definition nl_f3 : file := mkFile [51%N] [[65%N]] false.
+Definition nl_runs : list run :=
+  [ mkRun nl_cfg 0 [nl_f1; nl_f3] [];
+    mkRun nl_cfg 0 [nl_f1; nl_f2; nl_f3] [false; false; false; true];
+    mkRun nl_cfg 0 [nl_f1; nl_f2; nl_f3] [] ].
+
+Theorem C09_resume_nonlinear_refuted :
+  exists (rs : list run) (all : list file) (c : cfg),
+    sorted_files all /\ (forall f, In f all -> f_ckpt f = false) /\ cfg_ok c /\
+    (exists rs0, rs = rs0 ++ [mkRun c 0 all []]) /\
+    let outs := run_all bytes bytes_eqb (fun b => b) rs [] in
+    (* the last, fault-free run does nothing ... *)
+    last (map (fun x => fst (fst x)) outs) (RExec ODone) = RPend PNoPending /\
+    (* ... although planned statements never ran and the revision of file 2 stays 1/3 *)
+    journal (all_events bytes outs) = [([49%N], [65%N]); ([51%N], [65%N]); ([50%N], [65%N])] /\
+    length (plan all) = 5 /\
+    option_map (fun r => (r_applied r, r_total r))
+               (tbl_get (final_tbl bytes outs []) [50%N]) = Some (1, 3).
+Proof.
+  exists nl_runs, [nl_f1; nl_f2; nl_f3], nl_cfg.
+  split; [unfold sorted_files, fver_lt; repeat constructor|].
+  split; [intros f [<-|[<-|[<-|[]]]]; reflexivity|].
+  split; [split; reflexivity|].
+  split; [exists [mkRun nl_cfg 0 [nl_f1; nl_f3] [];
+                  mkRun nl_cfg 0 [nl_f1; nl_f2; nl_f3] [false; false; false; true]]; reflexivity|].
+  vm_compute. repeat split; reflexivity.
+Qed.
+Print Assumptions C09_resume_nonlinear_refuted.
+
+(** ** non-vacuity *)
+Definition ex_all : list file :=
+  [ mkFile [49%N] [[65%N]; [66%N]] false; mkFile [50%N] [[67%N]; [68%N]] false ].
+Definition ex_cfg : cfg := mkCfg Linear None false false.
+
+Example ex_all_ok : sorted_files ex_all /\ (forall f, In f ex_all -> f_ckpt f = false) /\ cfg_ok ex_cfg.
+Proof.
+  split; [unfold sorted_files, fver_lt; repeat constructor|].
+  split; [intros f [<-|[<-|[]]]; reflexivity|split; reflexivity].
+Qed.
+
+(** run 1: the write after statement A fails; run 2: statement C fails;
+    run 3: clean. A is executed twice (one failed bookkeeping write), nothing else. *)
+Definition ex_runs : list run :=
+  [ mkRun ex_cfg 0 ex_all [false; false; true];
+    mkRun ex_cfg 0 ex_all [false; false; false; false; false; false; false; true];
+    mkRun ex_cfg 0 ex_all [] ].
+
 Example C09_stop_nonvacuous :
   fst (fst (fst (execute bytes bytes_eqb (fun b => b) (mkFile [49%N] [[65%N]] false) [] [false; true]))) = OStmtErr.
 Proof. vm_compute. reflexivity. Qed.
+
+Example C09_stop_on_fault_nonvacuous :
+  let '(ro, _, _, es) := execute_n bytes bytes_eqb (fun b => b) ex_cfg 0 ex_all [] [false; false; true] in
+  ro = RExec OWriteErr /\ length es = 3 /\ map (@ev_ok bytes) es = [true; true; false].
+Proof. vm_compute. repeat split; reflexivity. Qed.
+
+Example C09_resume_nonvacuous :
+  Forall (run_ok ex_all) ex_runs /\
+  let outs := run_all bytes bytes_eqb (fun b => b) ex_runs [] in
+  journal (all_events bytes outs) =
+    expand (plan ex_all) [1; 0; 0; 0] /\
+  map snd (journal (all_events bytes outs)) = [[65%N]; [65%N]; [66%N]; [67%N]; [68%N]] /\
+  wf_all bytes outs = 1 /\
+  claimed_plan bytes ex_all (final_tbl bytes outs []) = plan ex_all.
+Proof.
+  split; [repeat constructor|]. vm_compute. repeat split; reflexivity.
+Qed.
+
+(** a cut inside run 1, after statement A ran and before its bookkeeping write:
+    journal = [A], the table claims nothing (P = 0, E = 1). *)
+Example C09_never_overclaims_nonvacuous :
+  let evs := all_events bytes (run_all bytes bytes_eqb (fun b => b) ex_runs []) in
+  let pre := firstn 2 evs in
+  journal pre = [([49%N], [65%N])] /\ claimed_plan bytes ex_all (tbl_of_events bytes pre []) = [].
+Proof. vm_compute. split; reflexivity. Qed.
+
+Example C09_exactly_once_nonvacuous :
+  let rs := [ mkRun ex_cfg 0 ex_all [false; false; false; true];       (* B fails *)
+              mkRun ex_cfg 1 ex_all [false; true];                      (* B fails again, count 1 *)
+              mkRun ex_cfg 0 ex_all [false; false; false; false; false; false; false; true] ] in (* D fails *)
+  let outs := run_all bytes bytes_eqb (fun b => b) (rs ++ [mkRun ex_cfg 0 ex_all []]) [] in
+  Forall (run_ok ex_all) rs /\
+  forallb (fun out => forallb (fun e => match e with EWrite _ false => false | _ => true end) (snd out)) outs = true /\
+  map (fun x => fst (fst x)) outs = [RExec OStmtErr; RExec OStmtErr; RExec OStmtErr; RExec ODone] /\
+  journal (all_events bytes outs) = plan ex_all.
+Proof. split; [repeat constructor|]. vm_compute. repeat split; reflexivity. Qed.
+
+Example C09_complete_marks_done_nonvacuous :
+  let outs := run_all bytes bytes_eqb (fun b => b) (ex_runs ++ [mkRun ex_cfg 0 ex_all []]) [] in
+  map (fun r => (r_applied r, r_total r, r_hashes r)) (final_tbl bytes outs []) = [(2, 2, []); (2, 2, [])] /\
+  fst (pending ex_cfg ex_all (read_revisions bytes (final_tbl bytes outs []))) = PNoPending.
+Proof. vm_compute. split; reflexivity. Qed.
